@@ -1158,8 +1158,20 @@ def _dimensionality_flag_and_discovery(ctx: Ctx):
     rel = f.module.relname
     pm = parent_map(f.node)
     # (a) flags: locals initialised to None that are compared with two distinct constants (`is True` / `is False`, `== 1` / `== 2`, ..)
-    none_init = {t.id for n in own_nodes(f.node) if isinstance(n, ast.Assign) and isinstance(n.value, ast.Constant) and n.value.value is None
-                 for t in n.targets if isinstance(t, ast.Name)}
+    # (state variables: locals that are only ever assigned constants - None / 0 'nothing seen yet' included - never computed or counted)
+    assigned, computed = {}, set()
+    for n in own_nodes(f.node):
+        if isinstance(n, ast.Assign):
+            for t in n.targets:
+                for x in ([t] if isinstance(t, ast.Name) else [e_ for e_ in ast.walk(t) if isinstance(e_, ast.Name)]):
+                    if isinstance(t, ast.Name) and isinstance(n.value, ast.Constant):
+                        assigned.setdefault(x.id, []).append(n.value.value)
+                    else:
+                        computed.add(x.id)
+        elif isinstance(n, (ast.AugAssign, ast.AnnAssign, ast.For, ast.comprehension)):
+            tgt = n.target
+            computed |= {x.id for x in ast.walk(tgt) if isinstance(x, ast.Name)}
+    none_init = {k for k, v in assigned.items() if k not in computed and len(v) >= 2}
     flags = {}
 
     def _const(c):
